@@ -1,6 +1,7 @@
 import Helios.Model.RateLimiter
 import Helios.Model.Breaker
 import Helios.Model.LB
+import Helios.Model.Admin
 /-
 Line-protocol driver: one operation per input line, one output line per operation.
 Core Lean only (compiled as the `driver` executable).  Every sub-model has its own
@@ -17,6 +18,9 @@ structure DState where
   cbLive : Bool := false
   lb : Option LB.Sys := none
   lbNames : List String := []
+  admF : Admin.Filter := ⟨some [], some [], false⟩
+  admTok : Admin.Text := []
+  admSt : Admin.AState := {}
 
 def words (line : String) : List String :=
   (line.splitOn " ").filter (fun w => w != "")
@@ -207,8 +211,59 @@ def lbStep (s : DState) : List String → DState × String
       | _, _ => (s, "bad-op")
   | _ => (s, "bad-op")
 
+def bytesToString (b : Bytes) : String := (String.fromUTF8? (ByteArray.mk b.toArray)).getD ""
+
+/-- "4.<base>.<len>" | "6.<base>.<len>" | "x" -/
+def parseNet (t : String) : Option Admin.Net :=
+  match t.splitOn "." with
+  | ["4", b, l] => match b.toNat?, l.toNat? with | some b, some l => some ⟨.v4 b, l⟩ | _, _ => none
+  | ["6", b, l] => match b.toNat?, l.toNat? with | some b, some l => some ⟨.v6 b, l⟩ | _, _ => none
+  | _ => none
+
+/-- "A=str~parsed,str~parsed": none if any entry is malformed -/
+def parseEntries (t : String) : Option (List Admin.Net) × Bool :=
+  let body := (t.drop 2).toString
+  if body == "" then (some [], false) else
+  let es := body.splitOn ","
+  let nets := es.map (fun e => match e.splitOn "~" with | [_, p] => parseNet p | _ => none)
+  (if nets.all (·.isSome) then some (nets.filterMap id) else none, true)
+
+def parsePeer (t : String) : Option Admin.IP :=
+  match t.splitOn "." with
+  | ["4", a] => a.toNat?.map .v4
+  | ["6", a] => a.toNat?.map .v6
+  | _ => none
+
+def sortStrings (l : List String) : List String := l.foldl (fun acc x => insertSorted x acc) []
+
+def admStep (s : DState) : List String → DState × String
+  | ["new", tok, a, d] =>
+    let pa := parseEntries a
+    let pd := parseEntries d
+    ({ s with admF := ⟨pa.1, pd.1, pa.2 || pd.2⟩, admTok := (bytesToString (unesc tok)).toList, admSt := {} }, "ok")
+  | ["req", method, path, authz, _remote, peer, _xff, _xri, bk] =>
+    let body : Admin.Body :=
+      if bk.startsWith "add:" then
+        match ((bk.drop 4).toString).splitOn ":" with
+        | [n, flag] => .add (bytesToString (unesc n)) (flag != "bad")
+        | _ => .bad
+      else if bk.startsWith "rm:" then .remove (bytesToString (unesc (bk.drop 3).toString))
+      else if bk.startsWith "st:" then .strategy (bytesToString (unesc (bk.drop 3).toString))
+      else if bk == "bad" then .bad else .none
+    let r : Admin.Req := { path := bytesToString (unesc path), authz := (bytesToString (unesc authz)).toList, peer := parsePeer peer }
+    let res := Admin.request s.admF s.admTok s.admSt r method body
+    let cls := match res.1 with
+      | .forbidden => "forbidden"
+      | .noRoute => "noroute"
+      | .unauthorized => "unauth"
+      | .served => s!"served:{res.2.1}"
+    let st := res.2.2
+    ({ s with admSt := st }, cls ++ " state=" ++ ",".intercalate (sortStrings st.names) ++ "|" ++ st.strategy)
+  | _ => (s, "bad-op")
+
 def step (s : DState) (line : String) : DState × String :=
   match words line with
+  | "adm" :: rest => admStep s rest
   | "rl" :: rest => rlStep s rest
   | "cb" :: rest => cbStep s rest
   | "lb" :: rest => lbStep s rest
